@@ -11,7 +11,9 @@
     `numEnd rest`     `rest` is empty or starts with no digit, '.', 'e', 'E'
     `JsonShaped v`    every `num` is `"jn:" ++ lit` with `NumOk lit`; maps have distinct keys
     `sz v`            fuel that suffices to decode the encoding of `v`
-    `wrapObj s`       `{"object":` ++ s ++ `}` — what `NewMapJson` decodes for a leading '['
+    `wrapObj s`       `{"object":` ++ s ++ `}` — what the PINNED `NewMapJson` decoded for a leading '['
+                      (repaired defect F-JSON-ARRAYTAIL, kept as documentation)
+    `wrapVal v`       `{"object": v}` — what `NewMapJson` returns for a leading '['
     `objKey`          the characters of `object`
     `rewriteUnsafe`   the pinned byte rewrite of the three HTML escape sequences
     `esc00 x y`       the six characters backslash, u, 0, 0, x, y
@@ -125,43 +127,111 @@ example : rewriteUnsafe (quote true (esc00 '3' 'c')) = ['"', '\\', '<', '"'] := 
 /-- on harmless strings the rewrite did what was intended -/
 example : rewriteUnsafe (quote true "a<b>&".toList) = quote false "a<b>&".toList := by decide
 
-/-! ### what `NewMapJson` accepts -/
+/-! ### what `NewMapJson` accepts
+
+  The property's sentence: "NewMapJson accepts exactly the inputs whose first value
+  encoding/json decodes as an object (or array, wrapped under "object") and returns the same
+  value".  Since the repair of F-JSON-ARRAYTAIL the array branch decodes the first value on its
+  own, so the sentence holds for arrays too (the recorded finding F-JSON-NULL - `null` gives a nil
+  Map and no error - stays as it is and is part of every statement below). -/
 
 /-- `NewMapJson` accepts a non-empty input exactly when
       * it does not start (after white space) with '[' and its first value is an object, or the
         recorded case `null` (a nil Map and no error);
-      * it starts with '[' and `{"object":` ++ input ++ `}` has an object as first value.
-    (The form suggested in the plan, `… = some (.map [("object", .list xs)])`, is false: see
-    the two examples after `C06_wrapper_shape`.) -/
+      * it starts with '[' and its first value is an array (equivalently: it has a first value,
+        see `C06_accepts_iff_first_value` and `C06_bracket_first_value_is_array`). -/
 theorem C06_accepts_iff (s : Str) (hs : s ≠ []) :
     (newMapJson s).isSome ↔
-      if (skipWs s).head? = some '[' then ∃ m, firstValue (wrapObj s) = some (.map m)
+      if (skipWs s).head? = some '[' then ∃ xs, firstValue s = some (.list xs)
       else (∃ m, firstValue s = some (.map m)) ∨ firstValue s = some .null := by
   rw [newMapJson_eq s hs]
   by_cases hb : (skipWs s).head? = some '['
   · simp only [hb, if_true]
-    cases hfv : firstValue (wrapObj s) with
+    cases hfv : firstValue s with
     | none => simp
     | some v =>
-      cases v with
-      | map m => simp
-      | null =>
-        exfalso
-        obtain ⟨r, hr⟩ := firstValue_eq_some _ _ hfv
-        rw [wrapObj_eq false s] at hr
-        obtain ⟨m, hm⟩ := value_brace_isMap _ _ _ _ hr
-        cases hm
-      | bool b => simp
-      | num t => simp
-      | str t => simp
-      | list xs => simp
+      obtain ⟨xs, rfl⟩ := firstValue_bracket_isList s hb v hfv
+      simp
   · simp only [hb, if_false]
     cases hfv : firstValue s with
     | none => simp
     | some v => cases v <;> simp
 
+/-- the same without looking at the first character: a non-empty input is accepted exactly when
+    its first value is an object, `null`, or an array -/
+theorem C06_accepts_iff_first_value (s : Str) (hs : s ≠ []) :
+    (newMapJson s).isSome ↔
+      (∃ m, firstValue s = some (.map m)) ∨ firstValue s = some .null ∨
+        (∃ xs, firstValue s = some (.list xs)) := by
+  rw [newMapJson_spec s hs]
+  cases hfv : firstValue s with
+  | none => simp
+  | some v => cases v <;> simp
+
 /-- the documented empty input -/
 theorem C06_accepts_empty : newMapJson [] = some (.map []) := rfl
+
+/-- `NewMapJson` is a function of the first value alone: object and `null` as they are, an array
+    under "object", any other first value - or none - is an error -/
+theorem C06_first_value_spec (s : Str) (hs : s ≠ []) :
+    newMapJson s =
+      (match firstValue s with
+        | some (.map m) => some (.map m)
+        | some .null => some .null
+        | some (.list xs) => some (.map [(objKey, .list xs)])
+        | _ => none) :=
+  newMapJson_spec s hs
+
+/-- "… and returns the same value": `r` is returned exactly when the first value is `r` itself
+    (an object, or `null`) or an array `xs` and `r` is `{"object": xs}` - one key, nothing else -/
+theorem C06_array_first_value (s : Str) (hs : s ≠ []) (r : Val) :
+    newMapJson s = some r ↔
+      (firstValue s = some r ∧ ((∃ m, r = .map m) ∨ r = .null)) ∨
+        (∃ xs, firstValue s = some (.list xs) ∧ r = .map [(objKey, .list xs)]) := by
+  rw [newMapJson_spec s hs]
+  cases hfv : firstValue s with
+  | none => simp
+  | some v =>
+    cases v with
+    | null =>
+      simp only [Option.some.injEq, reduceCtorEq, false_and, exists_false, or_false]
+      constructor
+      · intro h; exact ⟨h, Or.inr h.symm⟩
+      · intro h; exact h.1
+    | map m =>
+      simp only [Option.some.injEq, reduceCtorEq, false_and, exists_false, or_false]
+      constructor
+      · intro h; exact ⟨h, Or.inl ⟨m, h.symm⟩⟩
+      · intro h; exact h.1
+    | list xs =>
+      simp only [Option.some.injEq, Val.list.injEq]
+      constructor
+      · intro h; exact Or.inr ⟨xs, rfl, h.symm⟩
+      · rintro (⟨h, ⟨m, hm⟩ | hn⟩ | ⟨ys, hy, hr⟩)
+        · rw [← h] at hm; cases hm
+        · rw [← h] at hn; cases hn
+        · rw [hr, hy]
+    | bool b =>
+      constructor
+      · intro h; cases h
+      · rintro (⟨h, ⟨m, hm⟩ | hn⟩ | ⟨ys, hy, _⟩)
+        · simp only [Option.some.injEq] at h; rw [← h] at hm; cases hm
+        · simp only [Option.some.injEq] at h; rw [← h] at hn; cases hn
+        · cases hy
+    | num t =>
+      constructor
+      · intro h; cases h
+      · rintro (⟨h, ⟨m, hm⟩ | hn⟩ | ⟨ys, hy, _⟩)
+        · simp only [Option.some.injEq] at h; rw [← h] at hm; cases hm
+        · simp only [Option.some.injEq] at h; rw [← h] at hn; cases hn
+        · cases hy
+    | str t =>
+      constructor
+      · intro h; cases h
+      · rintro (⟨h, ⟨m, hm⟩ | hn⟩ | ⟨ys, hy, _⟩)
+        · simp only [Option.some.injEq] at h; rw [← h] at hm; cases hm
+        · simp only [Option.some.injEq] at h; rw [← h] at hn; cases hn
+        · cases hy
 
 /-- the accepted value is the first value itself, resp. `null` -/
 theorem C06_accepted_value (s : Str) (hs : s ≠ []) (hb : (skipWs s).head? ≠ some '[') (r : Val)
@@ -179,42 +249,97 @@ theorem C06_accepted_value (s : Str) (hs : s ≠ []) (hb : (skipWs s).head? ≠ 
     | str t => cases h
     | list xs => cases h
 
-/-- with a leading '[' the result is a map whose FIRST key is "object" -/
+/-- behind a leading '[' a first value can only be an array (a malformed array is an error of
+    the decoder, never some other value) -/
+theorem C06_bracket_first_value_is_array (s : Str) (hb : (skipWs s).head? = some '[') (v : Val)
+    (h : firstValue s = some v) : ∃ xs, v = .list xs :=
+  firstValue_bracket_isList s hb v h
+
+/-- with a leading '[' the result is EXACTLY `{"object": xs}` where `xs` is the first value of
+    the input: "object" is the only key and it is bound to the array.  (Before the repair only
+    "the first key is object" held: see the pinned-wrapper examples below.) -/
 theorem C06_wrapper_shape (s : Str) (hs : s ≠ []) (hb : (skipWs s).head? = some '[') (r : Val)
-    (h : newMapJson s = some r) : ∃ v m', r = .map ((objKey, v) :: m') := by
+    (h : newMapJson s = some r) :
+    ∃ xs, firstValue s = some (.list xs) ∧ r = .map [(objKey, .list xs)] := by
   rw [newMapJson_eq s hs, if_pos hb] at h
-  cases hfv : firstValue (wrapObj s) with
+  cases hfv : firstValue s with
   | none => simp [hfv] at h
   | some v =>
+    obtain ⟨xs, rfl⟩ := firstValue_bracket_isList s hb v hfv
     rw [hfv] at h
-    cases v with
-    | null =>
-      exfalso
-      obtain ⟨r', hr⟩ := firstValue_eq_some _ _ hfv
-      rw [wrapObj_eq false s] at hr
-      obtain ⟨m, hm⟩ := value_brace_isMap _ _ _ _ hr
-      cases hm
-    | map m =>
-      simp only [Option.some.injEq] at h
-      subst h
-      obtain ⟨v, m', hm⟩ := wrapObj_shape s _ hfv
-      exact ⟨v, m', by rw [hm]⟩
-    | bool b => cases h
-    | num t => cases h
-    | str t => cases h
-    | list xs => cases h
+    simp only [Option.map_some, Option.some.injEq] at h
+    exact ⟨xs, rfl, h.symm⟩
 
-/-- … but not necessarily the only key, nor bound to the array (recorded findings) -/
-example : newMapJson "[1],\"x\":2".toList
+/-- what follows the array is not looked at (the reproducers of F-JSON-ARRAYTAIL) -/
+example : newMapJson "[1],\"x\":2".toList = some (.map [(objKey, .list [.num "jn:1".toList])]) := by
+  decide +kernel
+example : newMapJson "[1],\"object\":5".toList
+    = some (.map [(objKey, .list [.num "jn:1".toList])]) := by
+  decide +kernel
+example : newMapJson "[1,2] x".toList
+    = some (.map [(objKey, .list [.num "jn:1".toList, .num "jn:2".toList])]) := by
+  decide +kernel
+example : newMapJson "[1,2]}".toList
+    = some (.map [(objKey, .list [.num "jn:1".toList, .num "jn:2".toList])]) := by
+  decide +kernel
+example : newMapJson " \n[1]\n<!--".toList = some (.map [(objKey, .list [.num "jn:1".toList])]) := by
+  decide +kernel
+/-- a malformed array is an error -/
+example : newMapJson "[1,2".toList = none := by decide +kernel
+example : newMapJson "[1 2]".toList = none := by decide +kernel
+example : newMapJson "[".toList = none := by decide +kernel
+/-- the pinned wrapper (`{"object":` ++ input ++ `}` decoded as one text) read the tail as part
+    of the wrapper object: two keys, the key rebound, an accepted stray brace, a refused tail -/
+example : firstValue (wrapObj "[1],\"x\":2".toList)
     = some (.map [(objKey, .list [.num "jn:1".toList]), ("x".toList, .num "jn:2".toList)]) := by
   decide +kernel
-example : newMapJson "[1],\"object\":5".toList = some (.map [(objKey, .num "jn:5".toList)]) := by
+example : firstValue (wrapObj "[1],\"object\":5".toList)
+    = some (.map [(objKey, .num "jn:5".toList)]) := by
   decide +kernel
+example : firstValue (wrapObj "[1,2] x".toList) = none := by decide +kernel
+example : (firstValue (wrapObj "[1,2]}".toList)).isSome = true := by decide +kernel
 
 /-- an encoded array is accepted and comes back under "object" -/
 theorem C06_array_wrapped (html : Bool) (xs : List Val) (hx : JsonShaped (.list xs) = true) :
     newMapJson (encN html (.list xs)) = some (.map [(objKey, .list xs)]) :=
   newMapJson_array html xs hx
+
+/-- … whatever follows it -/
+theorem C06_array_wrapped_tail (html : Bool) (xs : List Val) (hx : JsonShaped (.list xs) = true)
+    (rest : Str) :
+    newMapJson (encN html (.list xs) ++ rest) = some (.map [(objKey, .list xs)]) :=
+  newMapJson_array_tail html xs hx rest
+
+/-- an encoded Map followed by anything is accepted and comes back as the same value -/
+theorem C06_roundtrip_exact_tail (safe : Bool) (m : Entries) (hm : JsonShaped (.map m) = true)
+    (rest : Str) :
+    newMapJson (mapJson safe (.map m) ++ rest) = some (Val.norm (.map m)) :=
+  newMapJson_mapJson_tail safe m hm rest
+
+/-- trailing bytes are never looked at: `NewMapJson` is a function of the first value
+    (`C06_first_value_spec`), so a tail `t` that leaves the first value alone leaves the result
+    alone.  PARTIAL: the hypothesis `firstValue (s ++ t) = firstValue s` is discharged here for
+    every text the encoder writes (`C06_array_wrapped_tail`, `C06_roundtrip_exact_tail`, from
+    `firstValue_encN` with an arbitrary continuation); what is missing is the grammar lemma that
+    it holds for EVERY text `s` whose first value is an object or array (`value f s = some (v, r)`
+    with `v` not a number implies `value f' (s ++ t) = some (v, r ++ t)` for `f' ≥ f`: a mutual
+    induction over `value`/`elements`/`members`/`strBody`/`numberLit` that is not done).  The
+    examples above and the harness (every generated array/object text is run with random tails
+    against encoding/json's first value, no exception) cover it meanwhile. -/
+theorem C06_trailing_ignored_partial (s t : Str) (hs : s ≠ [])
+    (h : firstValue (s ++ t) = firstValue s) : newMapJson (s ++ t) = newMapJson s := by
+  rw [newMapJson_spec s hs, newMapJson_spec (s ++ t) (by simp [hs]), h]
+
+/-- the hypothesis is needed: a tail can complete a value that was not one (`[1,2` alone is an
+    error), and it is satisfiable on every reproducer of the finding -/
+example : newMapJson "[1,2".toList = none ∧
+    newMapJson ("[1,2".toList ++ "]".toList)
+      = some (.map [(objKey, .list [.num "jn:1".toList, .num "jn:2".toList])]) := by
+  decide +kernel
+example : firstValue ("[1,2]".toList ++ " x".toList) = firstValue "[1,2]".toList := by
+  decide +kernel
+example : firstValue ("[1]".toList ++ ",\"x\":2".toList) = firstValue "[1]".toList := by
+  decide +kernel
 
 /-- other first values are refused; trailing bytes are not looked at -/
 example : newMapJson "\"str\"".toList = none := by decide
